@@ -333,7 +333,10 @@ func sigAtomOfB(v ssa.Value, bind map[ssa.Value]ssa.Value) (atom string, neg boo
 			}
 		}
 	}
-	return atomName(newTermEnv().Term(v)), neg, nil
+	env := newTermEnv()
+	env.Sub = bind
+	a, flip := canonAtom(atomName(env.Term(v)))
+	return a, neg != flip, nil
 }
 
 // expandPredicates: a branch on a call to a side-effect-free boolean helper of the module (a
@@ -930,12 +933,12 @@ func ruleSEncOrder(c *Ctx) {
 			} else {
 				paths, _ := regionPaths(vf.Block(), nf.Block(), 32)
 				atoms, table, _ := dnfTable(paths)
-				want := fmt.Sprintf("[(len(%s) > 0) %s flag(%d)]", "SIG", "VERIFY", strict)
+				want := fmt.Sprintf("[(len(%s) == 0) %s flag(%d)]", "SIG", "VERIFY", strict)
 				var norm []string
 				for _, a := range atoms {
 					switch {
-					case strings.HasPrefix(a, "(len(") && strings.HasSuffix(a, "> 0)"):
-						norm = append(norm, "(len(SIG) > 0)")
+					case strings.HasPrefix(a, "(len(") && strings.HasSuffix(a, "== 0)"):
+						norm = append(norm, "(len(SIG) == 0)")
 					case strings.Contains(a, ".Verify("):
 						norm = append(norm, "VERIFY")
 					default:
@@ -943,7 +946,7 @@ func ruleSEncOrder(c *Ctx) {
 					}
 				}
 				sort.Strings(norm)
-				// exactly one satisfying row: !VERIFY, flag, len>0
+				// exactly one satisfying row: !VERIFY, flag, !(len == 0)
 				sat := 0
 				for _, v := range table {
 					if v {
@@ -956,10 +959,11 @@ func ruleSEncOrder(c *Ctx) {
 					for key, v := range table {
 						if v {
 							for i, a := range atoms {
-								if strings.Contains(a, ".Verify(") && key[i] != '0' {
+								isZero := strings.Contains(a, ".Verify(") || strings.HasPrefix(a, "(len(")
+								if isZero && key[i] != '0' {
 									ok = false
 								}
-								if !strings.Contains(a, ".Verify(") && key[i] != '1' {
+								if !isZero && key[i] != '1' {
 									ok = false
 								}
 							}
@@ -1003,7 +1007,7 @@ func ruleSEncOrder(c *Ctx) {
 				detail = strings.Join(cs, " && ")
 				okDummy := false
 				for _, x := range cs {
-					if strings.HasPrefix(x, "(len(") && strings.HasSuffix(x, "!= 0)") {
+					if strings.HasPrefix(x, "!(len(") && strings.HasSuffix(x, "== 0)") {
 						okDummy = true
 					}
 				}
